@@ -139,3 +139,28 @@ func VerifC04Recovery(strategy int, n int) {
 	verifrt.Known("C04-no-recovery-without-probing", strategy >= 2)
 	verifrt.Assert(served, "after the unhealthy window the backend receives traffic again (no active checks)")
 }
+
+// VerifC04ConcurrentFailures: two failed responses are recorded concurrently
+// while the tally is one short of the threshold (both see the threshold
+// reached); once the window has elapsed, unhealthy_threshold failed responses
+// in a row must eject the backend again - the tally must not be left in debt.
+func VerifC04ConcurrentFailures() {
+	lb := verifBareLB(0)
+	lb.metricsCollector = metrics.NewMetricsCollector()
+	lb.healthChecks.passiveEnabled = true
+	lb.healthChecks.passiveThreshold = 2
+	lb.healthChecks.passiveTimeout = 10 * time.Second
+	b := verifBackend(0)
+	lb.strategy.AddBackend(b)
+	r := verifRequest("10.1.2.3:4711")
+	lb.recordRequestMetrics(b, 500, verifrt.Now(), r)
+	verifrt.Go(func() { lb.recordRequestMetrics(b, 502, verifrt.Now(), r) })
+	verifrt.Go(func() { lb.recordRequestMetrics(b, 503, verifrt.Now(), r) })
+	verifrt.WaitAll()
+	verifrt.Assert(!lb.IsBackendHealthy(b), "the threshold was reached: the backend is ejected")
+	verifrt.Advance(11 * time.Second)
+	verifrt.Assert(lb.IsBackendHealthy(b), "the backend is eligible again after its window")
+	lb.recordRequestMetrics(b, 500, verifrt.Now(), r)
+	lb.recordRequestMetrics(b, 500, verifrt.Now(), r)
+	verifrt.Assert(!lb.IsBackendHealthy(b), "unhealthy_threshold failed responses in a row eject the backend (also after concurrent failures)")
+}
